@@ -376,6 +376,17 @@ def geometry_oracle(chk, ac, a):
                 if abs(seg.dihedral_cp[i] - ed) > 1e-9 or abs(seg.sweep_cp[i] - es) > 1e-9:
                     return "section-angles:%s" % side, dict(segment=seg.name, span=s, dihedral=float(seg.dihedral_cp[i]), expected_dihedral=ed,
                                                             sweep=float(seg.sweep_cp[i]), expected_sweep=es)
+            else:
+                # the section angle of a curve given by points is the direction of the piece the section lies on (away from the corners,
+                # where the documented finite difference straddles two pieces): outboard 0, straight up 90 deg, back inboard 180 deg
+                pts = np.array([[0.0, 0.0, 0.0]] + [list(p_) for p_ in w["quarter_chord_locs"]], dtype=float)
+                seglen = np.sqrt(np.diff(pts[:, 1]) ** 2 + np.diff(pts[:, 2]) ** 2)
+                frac = np.concatenate([[0.0], np.cumsum(seglen)]) / np.sum(seglen)
+                k_ = int(np.searchsorted(frac, s, side="right")) - 1
+                if 0 <= k_ < len(seglen) and frac[k_] + 0.011 < s < frac[k_ + 1] - 0.011:
+                    ed = sgn_d * math.atan2(-(pts[k_ + 1, 2] - pts[k_, 2]), pts[k_ + 1, 1] - pts[k_, 1])
+                    if abs(math.cos(seg.dihedral_cp[i]) - math.cos(ed)) > 1e-7 or abs(math.sin(seg.dihedral_cp[i]) - math.sin(ed)) > 1e-7:
+                        return "section-angles-from-points:%s" % side, dict(segment=seg.name, span=s, dihedral=float(seg.dihedral_cp[i]), expected_dihedral=ed)
             et = math.radians(dist_value(w.get("twist"), s))
             if abs(seg.twist_cp[i] - et) > 1e-9:
                 return "twist:%s" % side, dict(segment=seg.name, span=s, twist=float(seg.twist_cp[i]), expected=et)
@@ -454,6 +465,19 @@ def run(chk):
             ac["wings"]["outer"] = {"ID": 4, "side": "both", "is_main": True, "connect_to": {"ID": 1, "location": "tip", "dx": -0.05}, "semispan": 1.5,
                                     "chord": [[0.0, 0.8], [1.0, 0.4]], "sweep": 20.0, "dihedral": 25.0, "airfoil": "af0", "grid": {"N": 3, "reid_corrections": True}}
             ac["wings"]["h_stab"]["connect_to"]["y_offset"] = 0.15
+        if it == 2:
+            # quarter-chord points that do not simply run outboard: a C-wing (outboard, up, back inboard), a left-hand vertical fin given by
+            # its tip point and connected to the root of the aircraft origin, a right-hand ventral fin
+            ac = gen.simple_wing_aircraft(N=4, reid=False, controls=False)
+            mw = ac["wings"]["main_wing"]
+            mw.pop("semispan")
+            mw["quarter_chord_locs"] = [[0.0, 4.0, 0.0], [-0.1, 4.0, -1.0], [-0.2, 3.0, -1.0]]
+            mw["grid"] = {"N": 6, "reid_corrections": False, "cluster_points": [round(4.0 / 6.0, 12), round(5.0 / 6.0, 12)]}
+            vs = ac["wings"]["v_stab"]
+            vs.pop("semispan"); vs.pop("dihedral")
+            vs.update(side="left", quarter_chord_locs=[[-0.2, 0.0, -1.2]], connect_to={"ID": 0, "location": "root", "dx": -3.0, "dz": -0.1})
+            ac["wings"]["ventral"] = dict(copy.deepcopy(vs), ID=4, side="right", quarter_chord_locs=[[0.0, 0.0, 0.6]],
+                                          connect_to={"ID": 0, "location": "root", "dx": -3.0, "dz": 0.1})
         try:
             sc = gen.build_scene(MX, {"scene": {"atmosphere": {"rho": 0.0023769}}}, [("a", ac, {"velocity": 50.0}, {})])
         except Exception as e:
